@@ -190,6 +190,30 @@ def _ownership(chk: Check, lt: ClassInfo) -> None:
             if isinstance(n, ast.Attribute) and n.attr in ("_interval_events", "_value_collection", "_make_interval"):
                 chk.ob("R12.2", "%s:touches(%s)" % (f.qualname, n.attr), False, f.loc(n),
                        "%s reaches into LazyIntervalTree.%s" % (f.qualname, n.attr), 1)
+    # the tree get() hands out is the live index: whoever receives it may only read it
+    READ = {"overlap", "overlaps", "at", "envelop", "begin", "end", "span", "items", "is_empty", "copy",
+            "__len__", "__iter__", "__contains__", "__getitem__", "all_intervals", "boundary_table"}
+    for f in repo.all_functions():
+        if f.cls is lt:
+            continue
+        al_ = local_aliases(f.node)
+        tree_names = {k_ for k_, v_ in al_.items() if isinstance(v_, ast.Call) and isinstance(v_.func, ast.Attribute)
+                      and v_.func.attr == "get" and isinstance(v_.func.value, ast.Attribute)
+                      and v_.func.value.attr in ("_interval_index", "_interval_tree")}
+        if f.module.name == "util" and f.param_names()[:1] == ["tree"]:
+            tree_names.add("tree")
+        for c_ in walk_no_nested(f.node):
+            if not (isinstance(c_, ast.Call) and isinstance(c_.func, ast.Attribute)):
+                continue
+            recv = c_.func.value
+            on_tree = (isinstance(recv, ast.Name) and recv.id in tree_names) or (
+                isinstance(recv, ast.Call) and isinstance(recv.func, ast.Attribute) and recv.func.attr == "get"
+                and isinstance(recv.func.value, ast.Attribute)
+                and recv.func.value.attr in ("_interval_index", "_interval_tree"))
+            if on_tree:
+                chk.ob("R12.2", "%s:tree-read-only(%s)" % (f.qualname, c_.func.attr), c_.func.attr in READ, f.loc(c_),
+                       "%s calls %s() on the tree that get() returned: that is the live index, not a copy — "
+                       "anything but a read changes what later lookups answer" % (f.qualname, c_.func.attr), 1)
     sites = tree_sites(repo)
     chk.floor("R12.2", "lazy tree construction sites", len(sites), 2)
     for s in sites:
